@@ -4,6 +4,7 @@
 From Coq Require Import ZArith String List Bool.
 From Grpchan Require Import lib.Cases lib.Hex gen.Inproc.
 From Grpchan Require Export model.InprocStream.
+From Grpchan Require corr.HttpSched.
 Import ListNotations.
 Open Scope Z_scope.
 
@@ -65,12 +66,14 @@ Fixpoint accepted_prefix (S : list st) (rs : list round) : Z :=
 
 Inductive case :=
 | Sched (kind : string) (resp_stream : bool) (rounds : list round) (panicked leaked : bool)
-| GoChecked (kind : string) (id : Z) (ok : bool).   (* a comparison made on the Go side (message contents, other transport) *)
+| GoChecked (kind : string) (id : Z) (ok : bool)    (* a comparison made on the Go side (message contents, other transport) *)
+| Http (c : HttpSched.case).                       (* a schedule of the HTTP client stream against a scripted transport *)
 
 Definition check_case (k : case) : bool :=
   match k with
   | Sched _ rs rounds p l => accepts_from [init rs] rounds && negb p
   | GoChecked _ _ ok => ok
+  | Http c => HttpSched.check_case c
   end.
 
 (* ---- projections of a trace ---- *)
